@@ -30,7 +30,7 @@ def nonzero(d):
 @fpheap.with_heap_cases(("repr", "eq"), 40, 1500)
 class C11(vlib.Check):
     id = "C11"
-    props_modules = ["E3fpVerif.Props.C11"]
+    props_modules = ["E3fpVerif.Props.C11", "E3fpVerif.Props.C09Heap"]
     gen_items = ["fprint_fold"]
     rule = ("all ordered pairs of bit fingerprints over lengths 1..4 (exhaustive: every subset pair x 5 operators x 3 forms) "
             "plus seeded pairs up to 2^32; count/float pairs with overlapping and disjoint supports; scalars 1..9; "
